@@ -180,6 +180,8 @@ impl DecoderWork {
     }
 
     pub(crate) fn reset_received(&mut self) {
+        #[cfg(feature = "verif-hooks")]
+        self.shards.verif_poison();
         self.original_received_count = 0;
         self.recovery_received_count = 0;
         self.received.clear();
